@@ -56,6 +56,9 @@ func (ea *EncryptedAssertion) DecryptBytes(cert *tls.Certificate) ([]byte, error
 			return nil, fmt.Errorf("cannot create AES-GCM: %s", err)
 		}
 
+		if len(data) < c.NonceSize() {
+			return nil, fmt.Errorf("encrypted data is shorter than the AES-GCM nonce: actual size %d", len(data))
+		}
 		nonce, data := data[:c.NonceSize()], data[c.NonceSize():]
 		plainText, err := c.Open(nil, nonce, data, nil)
 		if err != nil {
@@ -63,7 +66,7 @@ func (ea *EncryptedAssertion) DecryptBytes(cert *tls.Certificate) ([]byte, error
 		}
 		return plainText, nil
 	case MethodAES128CBC, MethodAES256CBC, MethodTripleDESCBC:
-		if len(data)%k.BlockSize() != 0 {
+		if len(data) < k.BlockSize() || len(data)%k.BlockSize() != 0 {
 			return nil, fmt.Errorf("encrypted data is not a multiple of the expected CBC block size %d: actual size %d", k.BlockSize(), len(data))
 		}
 		nonce, data := data[:k.BlockSize()], data[k.BlockSize():]
@@ -74,8 +77,14 @@ func (ea *EncryptedAssertion) DecryptBytes(cert *tls.Certificate) ([]byte, error
 		data = bytes.TrimRight(data, "\x00")
 
 		// Calculate index to remove based on padding
-		padLength := data[len(data)-1]
-		lastGoodIndex := len(data) - int(padLength)
+		if len(data) == 0 {
+			return nil, fmt.Errorf("decrypted data is empty after removing padding")
+		}
+		padLength := int(data[len(data)-1])
+		if padLength > len(data) {
+			return nil, fmt.Errorf("invalid padding length %d: decrypted size %d", padLength, len(data))
+		}
+		lastGoodIndex := len(data) - padLength
 		return data[:lastGoodIndex], nil
 	default:
 		return nil, fmt.Errorf("unknown symmetric encryption method %#v", ea.EncryptionMethod.Algorithm)
